@@ -57,6 +57,14 @@ func (h HReg) methods() []string {
 type Case struct {
 	Regs []HReg   `json:"routes"`
 	Reqs []rt.Req `json:"requests"`
+	// Late are Headers() calls made after all requests have been served once;
+	// the requests are then served again.
+	Late []LateHeaders `json:"headers_after_serving,omitempty"`
+}
+
+type LateHeaders struct {
+	I int      `json:"route"`
+	H []string `json:"pairs"`
 }
 
 func compile(c Case, method string) []model.MRoute {
@@ -89,10 +97,12 @@ func compile(c Case, method string) []model.MRoute {
 
 func checkCase(c Case) (out evid.Outcome) {
 	out.Sub = len(c.Reqs)
+	c.Regs = append([]HReg(nil), c.Regs...) // the second pass edits its copy
 	f := flamego.NewWithLogger(io.Discard)
 	ran := -1
 	notFound := false
 	f.NotFound(func(ctx flamego.Context) { notFound = true; ctx.ResponseWriter().WriteHeader(404) })
+	handles := make([]*flamego.Route, len(c.Regs))
 	regErr := func() (err interface{}) {
 		defer func() { err = recover() }()
 		for i, g := range c.Regs {
@@ -122,6 +132,7 @@ func checkCase(c Case) (out evid.Outcome) {
 			for _, hs := range g.Headers {
 				r.Headers(hs...)
 			}
+			handles[i] = r
 		}
 		return nil
 	}()
@@ -129,69 +140,84 @@ func checkCase(c Case) (out evid.Outcome) {
 		// every route of a case is one the statement of C08 obliges the router to accept
 		return evid.Fail("registration-panic", "registration panicked: %v; routes %s", regErr, js(c.Regs))
 	}
-	compiled := map[string][]model.MRoute{}
 	nogate := func(*model.MRoute, model.Form, http.Header) bool { return true }
-	for _, q := range c.Reqs {
-		routes, ok := compiled[q.M]
-		if !ok {
-			routes = compile(c, q.M)
-			compiled[q.M] = routes
-		}
-		hdr := q.Header()
-		want := model.Match(routes, q.P, hdr, nil)
-		ran, notFound = -1, false
-		rec := httptest.NewRecorder()
-		hreq := q.HTTP()
-		hreq.Header = hdr
-		f.ServeHTTP(rec, hreq)
-		// classification
-		ungated := model.Admitting(routes, q.P, hdr, nogate)
-		gated := model.Admitting(routes, q.P, hdr, nil)
-		if len(gated) < len(ungated) {
+	for pass := 0; pass < 2; pass++ {
+		if pass == 1 {
+			// constraints given (again) after the application has been serving: the
+			// last call is the truth from then on, for every way to reach the route
+			if len(c.Late) == 0 {
+				break
+			}
+			for _, l := range c.Late {
+				handles[l.I].Headers(l.H...)
+				c.Regs[l.I].Headers = append(append([][]string(nil), c.Regs[l.I].Headers...), l.H)
+			}
 			out.NonTrivial = true
-			out.Classes = append(out.Classes, "constraint-failed-on-admitting-route")
+			out.Classes = append(out.Classes, "constraints-changed-after-serving")
 		}
-		if want.Found && want.Route.Headers != nil {
-			out.Classes = append(out.Classes, "constrained-route-won")
-			d := rt.Deriv(c.Regs[want.Route.Index].R)
-			static := true
-			for _, s := range d.Segs {
-				if k, _, _ := s.Classify(); k != model.KStatic {
-					static = false
+		compiled := map[string][]model.MRoute{}
+		for _, q := range c.Reqs {
+			routes, ok := compiled[q.M]
+			if !ok {
+				routes = compile(c, q.M)
+				compiled[q.M] = routes
+			}
+			hdr := q.Header()
+			want := model.Match(routes, q.P, hdr, nil)
+			ran, notFound = -1, false
+			rec := httptest.NewRecorder()
+			hreq := q.HTTP()
+			hreq.Header = hdr
+			f.ServeHTTP(rec, hreq)
+			// classification
+			ungated := model.Admitting(routes, q.P, hdr, nogate)
+			gated := model.Admitting(routes, q.P, hdr, nil)
+			if len(gated) < len(ungated) {
+				out.NonTrivial = true
+				out.Classes = append(out.Classes, "constraint-failed-on-admitting-route")
+			}
+			if want.Found && want.Route.Headers != nil {
+				out.Classes = append(out.Classes, "constrained-route-won")
+				d := rt.Deriv(c.Regs[want.Route.Index].R)
+				static := true
+				for _, s := range d.Segs {
+					if k, _, _ := s.Classify(); k != model.KStatic {
+						static = false
+					}
+				}
+				if want.Form == model.Short {
+					out.NonTrivial = true
+					out.Classes = append(out.Classes, "via-short-form")
+				}
+				if static {
+					out.NonTrivial = true
+					out.Classes = append(out.Classes, "via-static-path")
+				}
+				if ms := c.Regs[want.Route.Index].methods(); len(ms) > 1 && q.M != ms[len(ms)-1] {
+					out.NonTrivial = true
+					out.Classes = append(out.Classes, "via-other-method")
 				}
 			}
-			if want.Form == model.Short {
-				out.NonTrivial = true
-				out.Classes = append(out.Classes, "via-short-form")
-			}
-			if static {
-				out.NonTrivial = true
-				out.Classes = append(out.Classes, "via-static-path")
-			}
-			if ms := c.Regs[want.Route.Index].methods(); len(ms) > 1 && q.M != ms[len(ms)-1] {
-				out.NonTrivial = true
-				out.Classes = append(out.Classes, "via-other-method")
-			}
-		}
-		if len(c.Regs) > 0 {
-			for _, g := range c.Regs {
-				if len(g.Headers) > 1 {
-					out.Classes = append(out.Classes, "headers-respecified")
-					break
+			if len(c.Regs) > 0 {
+				for _, g := range c.Regs {
+					if len(g.Headers) > 1 {
+						out.Classes = append(out.Classes, "headers-respecified")
+						break
+					}
 				}
 			}
-		}
-		if want.Found != (ran >= 0) || (ran >= 0) == notFound {
-			wr := "-"
-			if want.Found {
-				wr = want.Route.Canon
+			if want.Found != (ran >= 0) || (ran >= 0) == notFound {
+				wr := "-"
+				if want.Found {
+					wr = want.Route.Canon
+				}
+				return fail(out, sigOf(c, want, ran), "%s %q headers %v: reference winner %q (found=%v), ServeHTTP ran handler #%d, not-found ran=%v; routes %s",
+					q.M, q.P, q.H, wr, want.Found, ran, notFound, show(c))
 			}
-			return fail(out, sigOf(c, want, ran), "%s %q headers %v: reference winner %q (found=%v), ServeHTTP ran handler #%d, not-found ran=%v; routes %s",
-				q.M, q.P, q.H, wr, want.Found, ran, notFound, show(c))
-		}
-		if want.Found && ran != want.Route.Index {
-			return fail(out, sigOf(c, want, ran), "%s %q headers %v: served by #%d %q, reference winner is #%d %q; routes %s",
-				q.M, q.P, q.H, ran, c.Regs[ran].R, want.Route.Index, want.Route.Canon, show(c))
+			if want.Found && ran != want.Route.Index {
+				return fail(out, sigOf(c, want, ran), "%s %q headers %v: served by #%d %q, reference winner is #%d %q; routes %s",
+					q.M, q.P, q.H, ran, c.Regs[ran].R, want.Route.Index, want.Route.Canon, show(c))
+			}
 		}
 	}
 	return out
@@ -338,6 +364,11 @@ func genCase(t *rapid.T) Case {
 		}
 	}
 	c.Reqs = reqs
+	if len(c.Regs) > 0 && rapid.IntRange(0, 2).Draw(t, "late") == 0 {
+		for i, n := 0, rapid.IntRange(1, 2).Draw(t, "nlate"); i < n; i++ {
+			c.Late = append(c.Late, LateHeaders{I: rapid.IntRange(0, len(c.Regs)-1).Draw(t, "li"), H: genHeaders(t)})
+		}
+	}
 	return c
 }
 
